@@ -8,42 +8,55 @@
 (* gone once the instance has been silent for more than 3 + 30 + 1 s.                                     *)
 EXTENDS Naturals, Integers, FiniteSets, Sequences, TLC
 
-CONSTANTS Insts, Ups, Horizon, MaxSteps
+CONSTANTS Insts, Ups, Horizon, MaxSteps, Variant      \* Variant: "fixed" (an acquiring instance is registered for the timeout) | "pinned"
 Timeout == 3
 Bound == 3 + 30 + 1 + 1     \* heartbeat timeout + slow pass period + fast pass period + one second of slack
 
-VARIABLES now, hb, run, known, rec, hist
-vars == <<now, hb, run, known, rec, hist>>
+\* last[i]: the time the server's client cache holds for i (-1: not in the cache).  rec: records [i, u, kind, t]
+VARIABLES now, hb, run, last, rec, hist
+vars == <<now, hb, run, last, rec, hist>>
+known == {i \in Insts : last[i] >= 0}
 
-Init == now = 0 /\ hb = [i \in Insts |-> -1] /\ run = [i \in Insts |-> -1] /\ known = {} /\ rec = {} /\ hist = <<>>
+Init == now = 0 /\ hb = [i \in Insts |-> -1] /\ run = [i \in Insts |-> -1] /\ last = [i \in Insts |-> -1] /\ rec = {} /\ hist = <<>>
 
 Hb(i) == /\ hb' = [hb EXCEPT ![i] = now]
-         /\ run' = [run EXCEPT ![i] = IF hb[i] >= 0 /\ now - hb[i] <= Timeout /\ i \in known THEN @ ELSE now]
-         /\ known' = known \cup {i}
+         /\ run' = [run EXCEPT ![i] = IF hb[i] >= 0 /\ now - hb[i] <= Timeout /\ last[i] = hb[i] THEN @ ELSE now]
+         /\ last' = [last EXCEPT ![i] = now]
          /\ UNCHANGED <<now, rec>> /\ hist' = Append(hist, [k |-> "hb", i |-> i, u |-> 0, d |-> 0])
-Record(i, u, kind) == /\ i \in known                                         \* honest gateways heartbeat before they report
-                      /\ rec' = {r \in rec : ~(r.i = i /\ r.u = u)} \cup {[i |-> i, u |-> u, t |-> now]}
-                      /\ UNCHANGED <<now, hb, run, known>> /\ hist' = Append(hist, [k |-> kind, i |-> i, u |-> u, d |-> 0])
-\* time passes by d seconds; the passes that fall into the interval run (fast pass every second, slow pass every 30)
-Expire(K, t) == {i \in K : hb[i] + Timeout >= t}
+\* a report (global-allocate quota condition) or an acquire (global-count in-flight count) of instance i - whether or not the server knows i:
+\* an instance's heartbeats may have stopped (or never arrived) while its other calls still get through.
+\* fixed: an acquire registers an unknown instance in the client cache (ClientCache.Track), so that its count times out like any other state
+Record(i, u, kind) ==
+   /\ rec' = {r \in rec : ~(r.i = i /\ r.u = u /\ r.kind = kind)} \cup {[i |-> i, u |-> u, kind |-> kind, t |-> now]}
+   /\ last' = IF kind = "acquire" /\ Variant = "fixed" /\ last[i] < 0 THEN [last EXCEPT ![i] = now] ELSE last
+   /\ UNCHANGED <<now, hb, run>> /\ hist' = Append(hist, [k |-> kind, i |-> i, u |-> u, d |-> 0])
+\* time passes by d seconds; the passes that fall into the interval run:
+\*   fast pass (every second): instances whose cache time is older than 3 s leave the cache, ALL their records are deleted
+\*   slow pass (every 30 s):   report records of instances not in the cache are deleted - and with them the in-flight counts of THOSE instances
+\*                             (cleanupUnknownCondition: clientsToDelete is built from the conditions); an in-flight count of an unknown
+\*                             instance without a report record is not looked at by any pass
 Tick(d) == /\ now + d <= Horizon /\ now' = now + d
-           /\ LET k2 == Expire(known, now + d - 1)                            \* fast pass (latest run at <= now+d): silent instances forgotten
-                  slow == (now + d) \div 30 > now \div 30                      \* a slow pass fell into the interval
-                  r1 == {r \in rec : r.i \in k2 \/ (~slow /\ r.i \notin known)} IN
-              /\ known' = k2 /\ rec' = IF slow THEN {r \in rec : r.i \in k2} ELSE {r \in rec : r.i \in k2 \/ r.i \notin known}
+           /\ LET keep == {i \in known : last[i] + Timeout >= now + d - 1}
+                  slow == (now + d) \div 30 > now \div 30
+                  r1 == {r \in rec : r.i \in keep \/ r.i \notin known}                       \* after the fast passes
+                  swept == {r.i : r \in {x \in r1 : x.kind = "report" /\ x.i \notin keep}} IN
+              /\ last' = [i \in Insts |-> IF i \in keep THEN last[i] ELSE -1]
+              /\ rec' = IF slow THEN {r \in r1 : r.i \notin swept} ELSE r1
            /\ UNCHANGED <<hb, run>> /\ hist' = Append(hist, [k |-> "sleep", i |-> 0, u |-> 0, d |-> d])
 Next == /\ Len(hist) < MaxSteps
         /\ \/ \E i \in Insts : Hb(i)
            \/ \E i \in Insts, u \in Ups, kind \in {"report", "acquire"} : Record(i, u, kind)
            \/ \E d \in {1, 2, 5, 40} : Tick(d)
 Spec == Init /\ [][Next]_vars
-View == <<now, hb, run, known, rec>>
+View == <<now, hb, run, last, rec>>
 
 \* L0
 Live(i) == hb[i] >= 0 /\ now - hb[i] <= Timeout
 Protected(r) == Live(r.i) /\ run[r.i] >= 0 /\ r.t >= run[r.i]
-DeadLong(i) == hb[i] < 0 \/ now - hb[i] > Bound
+Max(a, b) == IF a > b THEN a ELSE b
+\* the instance has been silent for longer than the bound - counted from its last heartbeat or, if later, from the record's creation
+DeadLong(r) == now - Max(hb[r.i], r.t) > Bound
 \* every record created during the current gap-free run of a live instance is still there (checked as an action property)
-NeverRemoveLive == [][\A r \in rec : (Protected(r) /\ now' = now) => r \in rec' \/ \E r2 \in rec' : r2.i = r.i /\ r2.u = r.u]_vars
-Reclaimed == \A r \in rec : ~DeadLong(r.i)
+NeverRemoveLive == [][\A r \in rec : (Protected(r) /\ now' = now) => r \in rec' \/ \E r2 \in rec' : r2.i = r.i /\ r2.u = r.u /\ r2.kind = r.kind]_vars
+Reclaimed == \A r \in rec : ~DeadLong(r)
 =============================================================================
